@@ -159,15 +159,6 @@ func runProducers(c *Ctx, P string, orc outOracle) {
 		seqSec(false, 3)
 		seqSec(true, 2)
 	}
-	replayers[P+"/seq"] = func(c *Ctx, raw json.RawMessage) string {
-		var cs seqCase
-		json.Unmarshal(raw, &cs)
-		redact.RegisterRedactErrorFn(scriptedHook)
-		defer redact.RegisterRedactErrorFn(nil)
-		al := sigma(cs.Full, cs.Invalid)
-		precomputeRaw(al)
-		return produceSeq(al, cs.Ops, cs.Hook, orc, nil)
-	}
 	redact.RegisterRedactErrorFn(nil)
 	// (b) explicit-state search
 	depth, maxStates := 5, 400000
@@ -181,18 +172,6 @@ func runProducers(c *Ctx, P string, orc outOracle) {
 			fail(w, "state", stateCase{State: s.VerifState(), Op: op.Name}, fmt.Sprintf("state %+v --%s--> %q: %s", s.VerifState(), op.Name, out, d))
 		}
 	})
-	replayers[P+"/state"] = func(c *Ctx, raw json.RawMessage) string {
-		var cs stateCase
-		json.Unmarshal(raw, &cs)
-		s := buffer.VerifMake(cs.State)
-		for _, op := range bufOps() {
-			if op.Name == cs.Op {
-				op.Apply(&s)
-				return orc([]byte(s.RedactableString()))
-			}
-		}
-		return "unknown op"
-	}
 	c.states += st.States
 	c.Note(fmt.Sprintf("explicit-state search: %d canonical buffer states, %d transitions, depth %d", st.States, st.Transitions, st.Depth))
 	// (c1) directives x universe
@@ -215,15 +194,6 @@ func runProducers(c *Ctx, P string, orc outOracle) {
 			}
 		}
 	})
-	replayers[P+"/directives"] = func(c *Ctx, raw json.RawMessage) string {
-		var cs struct {
-			D          Directive
-			V, Variant int
-		}
-		json.Unmarshal(raw, &cs)
-		f, stars := cs.D.Format()
-		return produceFmt(f, append(stars, universe()[cs.V].Mk(cs.Variant)), orc, nil)
-	}
 	// (c2) format programs and all short formats (arbitrary bytes)
 	k := 3
 	if !c.Quick() {
@@ -264,15 +234,6 @@ func runProducers(c *Ctx, P string, orc outOracle) {
 			}
 		}
 	})
-	rp := func(c *Ctx, raw json.RawMessage) string {
-		var cs struct {
-			F []byte
-			A int
-		}
-		json.Unmarshal(raw, &cs)
-		return produceFmt(string(cs.F), producerArgLists()[cs.A], orc, nil)
-	}
-	replayers[P+"/programs"], replayers[P+"/formats-2byte"], replayers[P+"/indexed"] = rp, rp, rp
 	// (d) EscapeBytes / single ManualBuffer writes over all byte strings
 	n := 5
 	if !c.Quick() {
@@ -286,11 +247,6 @@ func runProducers(c *Ctx, P string, orc outOracle) {
 			fail(w, "bytes", map[string]interface{}{"B": b, "quoted": q(string(b))}, d)
 		}
 	})
-	replayers[P+"/bytes"] = func(c *Ctx, raw json.RawMessage) string {
-		var cs struct{ B []byte }
-		json.Unmarshal(raw, &cs)
-		return produceBytes(cs.B, orc, nil)
-	}
 	// (e) Join / JoinTo over library-produced redactables
 	rs := joinSeeds()
 	nr := len(rs)
@@ -316,6 +272,62 @@ func runProducers(c *Ctx, P string, orc outOracle) {
 			}
 		}
 	})
+}
+
+// registerProducerReplayers registers the single-case re-executors of the producer sections.
+func registerProducerReplayers(P string, orc outOracle) {
+	replayers[P+"/seq"] = func(c *Ctx, raw json.RawMessage) string {
+		var cs seqCase
+		json.Unmarshal(raw, &cs)
+		redact.RegisterRedactErrorFn(scriptedHook)
+		defer redact.RegisterRedactErrorFn(nil)
+		al := sigma(cs.Full, cs.Invalid)
+		precomputeRaw(al)
+		return produceSeq(al, cs.Ops, cs.Hook, orc, nil)
+	}
+	replayers[P+"/state"] = func(c *Ctx, raw json.RawMessage) string {
+		var cs stateCase
+		json.Unmarshal(raw, &cs)
+		s := buffer.VerifMake(cs.State)
+		for _, op := range bufOps() {
+			if op.Name == cs.Op {
+				op.Apply(&s)
+				return orc([]byte(s.RedactableString()))
+			}
+		}
+		return "unknown op"
+	}
+	replayers[P+"/directives"] = func(c *Ctx, raw json.RawMessage) string {
+		var cs struct {
+			D          Directive
+			V, Variant int
+		}
+		json.Unmarshal(raw, &cs)
+		f, stars := cs.D.Format()
+		return produceFmt(f, append(stars, universe()[cs.V].Mk(cs.Variant)), orc, nil)
+	}
+	rp := func(c *Ctx, raw json.RawMessage) string {
+		var cs struct {
+			F []byte
+			A int
+		}
+		json.Unmarshal(raw, &cs)
+		return produceFmt(string(cs.F), producerArgLists()[cs.A], orc, nil)
+	}
+	replayers[P+"/programs"], replayers[P+"/formats-2byte"], replayers[P+"/indexed"] = rp, rp, rp
+	replayers[P+"/bytes"] = func(c *Ctx, raw json.RawMessage) string {
+		var cs struct{ B []byte }
+		json.Unmarshal(raw, &cs)
+		return produceBytes(cs.B, orc, nil)
+	}
+	replayers[P+"/join"] = func(c *Ctx, raw json.RawMessage) string {
+		var cs struct {
+			List  []redact.RedactableString `json:"list"`
+			Delim redact.RedactableString   `json:"delim"`
+		}
+		json.Unmarshal(raw, &cs)
+		return orc([]byte(redact.Join(cs.Delim, cs.List)))
+	}
 }
 
 func joinSeeds() []redact.RedactableString {
@@ -371,6 +383,8 @@ func produceBytes(b []byte, orc outOracle, seen func([]byte)) string {
 }
 
 func init() {
+	registerProducerReplayers("C01", oracleC01)
+	registerProducerReplayers("C03", oracleC03)
 	checks["C01"] = func(c *Ctx) {
 		runProducers(c, "C01", oracleC01)
 		c.Assume("payloads are <=2 alphabet symbols in sequences, <=5/7 bytes in single writes, plus long symbols; values are those of the universe (DESIGN section 4)")
